@@ -31,6 +31,7 @@ type Engine struct {
 	MaxSteps   int
 	MaxDepth   int
 	DenyPkgs   map[string]bool
+	AllowFns   map[string]bool // functions of denied packages that are simple enough to interpret
 	Debug      bool
 	Unsupp     map[string]int // unsupported constructs met (evidence)
 	fresh      int64
@@ -53,6 +54,9 @@ func NewEngine(prog *ssa.Program) *Engine {
 			"golang.org/x/sys/unix":                    true,
 		},
 		Unsupp: map[string]int{},
+		AllowFns: map[string]bool{
+			"(*syscall.Iovec).SetLen": true, "(*syscall.Msghdr).SetControllen": true, "(*syscall.Msghdr).SetIovlen": true,
+		},
 	}
 }
 
